@@ -297,10 +297,10 @@ func nestedBox(tier core.Tier) []ruleSpec {
 		{Kind: "thr", Weights: map[string]float64{"k1": 1}, Accept: 1},
 		{Kind: "aks", Sets: [][]string{{"k1", "k2"}}},
 		{Kind: "thr", Weights: map[string]float64{"X1": 1}, Accept: 1},
-		{Kind: "none"},
 	}
 	if tier == core.Thorough {
 		box = append(box,
+			ruleSpec{Kind: "none"},
 			ruleSpec{Kind: "thr", Weights: map[string]float64{"k1": 0.5, "k2": 0.5}, Accept: 1},
 			ruleSpec{Kind: "thr", Weights: map[string]float64{"k2": 1, "k3": 1}, Accept: 1},
 			ruleSpec{Kind: "aks", Sets: [][]string{{"k3"}, {"k1"}}},
@@ -527,12 +527,23 @@ func impl(c *config, m *mapMgr, uris []string) (int, string) {
 //   - a member account that has no rule (does not exist),
 //   - a float sum that lands exactly on the threshold with inexact weights.
 
+const (
+	ambPathKey  = iota // key named inside a longer path, verified elsewhere in the list
+	ambEmptySet        // empty key set
+	ambNoRule          // (member) account without a rule
+	ambFloat           // inexact float sum exactly on the threshold
+	ambKinds
+)
+
+var ambName = [ambKinds]string{"path_key_signed_elsewhere", "empty_key_set", "account_without_rule", "float_sum_on_threshold"}
+
 type refEval struct {
 	rules    [nNames]*crule
 	uris     [][]int
 	verified [nNames]bool
 	hi       bool
 	ambig    bool
+	kinds    uint8 // which silent spots were consulted (bit per ambKind)
 	rootSat  int
 	buf      [8]int
 }
@@ -586,6 +597,7 @@ func (e *refEval) evalRule(r *crule, plen int, root bool) bool {
 		}
 		if sum == r.acc10 && inexact {
 			e.ambig = true
+			e.kinds |= 1 << ambFloat
 			return e.hi
 		}
 		return sum >= r.acc10
@@ -594,6 +606,7 @@ func (e *refEval) evalRule(r *crule, plen int, root bool) bool {
 	for _, set := range r.sets {
 		if len(set) == 0 {
 			e.ambig = true
+			e.kinds |= 1 << ambEmptySet
 			if e.hi {
 				res = true
 			}
@@ -624,6 +637,7 @@ func (e *refEval) satNode(plen int) bool {
 		}
 		if e.verified[name] || !middleKeysUnverified() {
 			e.ambig = true
+			e.kinds |= 1 << ambPathKey
 			return e.hi
 		}
 		return false
@@ -631,6 +645,7 @@ func (e *refEval) satNode(plen int) bool {
 	r := e.rules[name]
 	if r == nil {
 		e.ambig = true
+		e.kinds |= 1 << ambNoRule
 		return e.hi
 	}
 	return e.evalRule(r, plen, false)
@@ -661,6 +676,7 @@ func referenceWith(e *refEval, c *config, uris [][]int) (bool, bool, int) {
 			r := c.rules[n]
 			if r == nil {
 				e.ambig = true
+				e.kinds |= 1 << ambNoRule
 				return e.hi
 			}
 			e.buf[0] = n
@@ -668,6 +684,7 @@ func referenceWith(e *refEval, c *config, uris [][]int) (bool, bool, int) {
 		default:
 			if c.method == nil {
 				e.ambig = true
+				e.kinds |= 1 << ambNoRule
 				return e.hi
 			}
 			return e.evalRule(c.method, 0, true)
@@ -866,6 +883,7 @@ type statsA struct {
 	monoPairs, monoPairsAccepted      int
 	obsMalformedReject, obsMalformedM int
 	obsAmbigAccept, obsAmbigReject    int
+	obsKind                           [ambKinds][2]int
 	configs, configsBoth              int
 	byTarget                          [3]int
 }
@@ -884,6 +902,10 @@ func (s *statsA) add(o *statsA) {
 	s.obsMalformedM += o.obsMalformedM
 	s.obsAmbigAccept += o.obsAmbigAccept
 	s.obsAmbigReject += o.obsAmbigReject
+	for k := range s.obsKind {
+		s.obsKind[k][0] += o.obsKind[k][0]
+		s.obsKind[k][1] += o.obsKind[k][1]
+	}
 	s.configs += o.configs
 	s.configsBoth += o.configsBoth
 	for i := range s.byTarget {
@@ -940,10 +962,17 @@ func evalConfig(c *config, ls *listSet, res []uint8, jr *jobResult, e *refEval) 
 		}
 		if lo != hi {
 			st.unjudged++
+			ai := 0
 			if out == outAccept {
 				st.obsAmbigAccept++
+				ai = 1
 			} else {
 				st.obsAmbigReject++
+			}
+			for k := 0; k < ambKinds; k++ {
+				if e.kinds&(1<<k) != 0 {
+					st.obsKind[k][ai]++
+				}
 			}
 			continue
 		}
@@ -1126,6 +1155,11 @@ func runPartA(rep *core.Report, tier core.Tier) {
 	rep.Set("a.observed.malformed_uri_added_to_accepted_list_rejects", st.obsMalformedM)
 	rep.Set("a.observed.unjudged_impl_accept", st.obsAmbigAccept)
 	rep.Set("a.observed.unjudged_impl_reject", st.obsAmbigReject)
+	byKind := map[string]map[string]int{}
+	for k := 0; k < ambKinds; k++ {
+		byKind[ambName[k]] = map[string]int{"impl_reject": st.obsKind[k][0], "impl_accept": st.obsKind[k][1]}
+	}
+	rep.Set("a.observed.unjudged_by_silent_spot", byKind)
 	rep.Set("a.complete", complete)
 	rep.Add("evaluations", st.evals)
 	rep.Add("distinct_nontrivial", st.nontrivial)
